@@ -132,12 +132,46 @@ def check_alloc(spec, pool_size, infinite):
 def gen(rnd):
     n = rnd.randrange(1, 7)
     ops = []
-    free_pre = ["a0", "a1", "t0"]  # each pre-assigned register at most once (a valid input has no conflicting pre-assignments)
     for i in range(n):
         kind = rnd.choice(["li", "add", "add", "mul", "mv"])
-        pre = free_pre.pop(rnd.randrange(len(free_pre))) if free_pre and rnd.random() < 0.12 else None
-        ops.append((kind, [rnd.randrange(0, 8), rnd.randrange(0, 8)], pre, rnd.choice([0, 0, 1, 5])))
-    return {"ops": ops, "ret": [rnd.randrange(0, 8) for _ in range(rnd.randrange(0, 3))]}
+        pre = rnd.choice(["a0", "a1", "t0", "t0", "t1"]) if rnd.random() < 0.25 else None
+        ops.append([kind, [rnd.randrange(0, 8), rnd.randrange(0, 8)], pre, rnd.choice([0, 0, 1, 5])])
+    spec = {"ops": [tuple(o) for o in ops], "ret": [rnd.randrange(0, 8) for _ in range(rnd.randrange(0, 3))]}
+    return make_valid(spec)
+
+
+def make_valid(spec):
+    """
+    A valid input has no two values pre-assigned to the same register with overlapping live ranges (live range = definition .. last use,
+    the return included).  Offending pre-assignments are dropped; the same register may carry several values with disjoint ranges.
+    """
+    ops = [list(o) for o in spec["ops"]]
+    n = len(ops)
+
+    def operands(i):
+        kind = ops[i][0]
+        if kind == "li" or i == 0:
+            return []
+        k = 1 if kind == "mv" else 2
+        return [ops[i][1][j] % i for j in range(k)]
+
+    last = {i: i for i in range(n)}
+    for i in range(n):
+        for v in operands(i):
+            last[v] = max(last[v], i)
+    for r in spec["ret"]:
+        if n:
+            last[r % n] = n
+    taken = {}
+    for i in range(n):
+        pre = ops[i][2]
+        if pre is None:
+            continue
+        if any(not (last[j] <= i or last[i] <= j) or last[j] > i for j in taken.get(pre, [])):
+            ops[i][2] = None
+        else:
+            taken.setdefault(pre, []).append(i)
+    return {"ops": [tuple(o) for o in ops], "ret": list(spec["ret"])}
 
 
 def explore(tier, seed):
